@@ -283,10 +283,10 @@ class ParserSim:
     def plan(self, prop, tier):
         if prop == "C10":
             if tier == "quick":
-                return [("sessions", 12000), ("sweep", len(gen.CORPUS))]
+                return [("sessions", 40000), ("sweep", len(gen.CORPUS))]
             return [("sessions", 1200000), ("sweep", len(gen.CORPUS) + 6000)]
         if tier == "quick":
-            return [("sessions", 20000)]
+            return [("sessions", 60000)]
         return [("sessions", 2000000)]
 
     def batch_size(self, stratum):
@@ -309,6 +309,8 @@ class ParserSim:
             "eq": rng.random() < 0.7,
             "soup_len": rng.choice([3, 6, 10, 16]),
             "max_len": 80,
+            # variable alphabet of the session (incl. letters that can spell 'sgn' by juxtaposition)
+            "vars": "".join(rng.sample("abcdefghijklmnopqrstuvwxyz", rng.choice([2, 3, 5, 8]))) + rng.choice(["", "x", "sgn", "e"]),
         }
         cfg = {"prop": prop, "stratum": stratum, "gen": gcfg}
         if stratum == "sweep":
